@@ -19,6 +19,8 @@ type tw struct {
 	mixed bool           // some ID was declared with two kinds
 	scCreated [][]byte   // siacoin IDs created by v2 transactions, payouts and the Foundation subsidy (Ledger/Fresh.v)
 	scParents []scParent // siacoin parents consumed by v2 transactions
+	sfCreated, v2Created                [][]byte   // Ledger/Fresh2.v
+	sfParents, v2RevParents, v2ResParents []scParent
 }
 
 type scParent struct {
@@ -26,27 +28,36 @@ type scParent struct {
 	leaf uint64
 }
 
-// freshSC mirrors Ledger/Fresh.v fresh_sc: for every consumed siacoin element with an assigned leaf, nothing is created
-// under its ID and inputs with the same parent ID present the same leaf
-func (w *tw) freshSC() bool {
+// freshGen mirrors Ledger/Fresh2.v fresh_gen: for every parent of ps with an assigned leaf, nothing is created under its ID
+// and every parent of qs with the same ID presents the same leaf
+func freshGen(ps, qs []scParent, createdIDs [][]byte) bool {
 	created := map[string]bool{}
-	for _, c := range w.scCreated {
+	for _, c := range createdIDs {
 		created[string(c)] = true
 	}
-	for _, p := range w.scParents {
+	for _, p := range ps {
 		if p.leaf == types.UnassignedLeafIndex {
 			continue // created in this block
 		}
 		if created[string(p.id)] {
 			return false
 		}
-		for _, q := range w.scParents {
+		for _, q := range qs {
 			if string(q.id) == string(p.id) && q.leaf != p.leaf {
 				return false
 			}
 		}
 	}
 	return true
+}
+
+// fresh mirrors fresh_sc (Ledger/Fresh.v), fresh_sf and fresh_v2 (Ledger/Fresh2.v)
+func (w *tw) fresh() [3]bool {
+	return [3]bool{
+		freshGen(w.scParents, w.scParents, w.scCreated),
+		freshGen(w.sfParents, w.sfParents, w.sfCreated),
+		freshGen(w.v2ResParents, append(append([]scParent(nil), w.v2RevParents...), w.v2ResParents...), w.v2Created),
+	}
 }
 
 const (
@@ -440,6 +451,7 @@ func txn2Toks(w *tw, vc *vcollector, cs consensus.State, txn types.V2Transaction
 		w.pres(in.Parent.StateElement, ok(in.Parent.StateElement))
 		w.sfe(in.Parent)
 		w.decl(in.Parent.ID[:], kSF)
+		w.sfParents = append(w.sfParents, scParent{append([]byte(nil), in.Parent.ID[:]...), in.Parent.StateElement.LeafIndex})
 		w.b(in.ClaimAddress[:])
 		cid := in.Parent.ID.V2ClaimOutputID()
 		w.b(cid[:])
@@ -453,6 +465,7 @@ func txn2Toks(w *tw, vc *vcollector, cs consensus.State, txn types.V2Transaction
 		oid := txn.SiafundOutputID(txid, i)
 		w.b(oid[:])
 		w.decl(oid[:], kSF)
+		w.sfCreated = append(w.sfCreated, append([]byte(nil), oid[:]...))
 		w.z(o.Value)
 		w.b(o.Address[:])
 	}
@@ -468,6 +481,7 @@ func txn2Toks(w *tw, vc *vcollector, cs consensus.State, txn types.V2Transaction
 		fid := txn.V2FileContractID(txid, i)
 		w.b(fid[:])
 		w.decl(fid[:], kV2)
+		w.v2Created = append(w.v2Created, append([]byte(nil), fid[:]...))
 		w.fc2(cs, fc)
 		contractKeys(fc)
 	}
@@ -476,6 +490,7 @@ func txn2Toks(w *tw, vc *vcollector, cs consensus.State, txn types.V2Transaction
 		w.pres(r.Parent.StateElement, ok(r.Parent.StateElement))
 		w.fce2(cs, r.Parent)
 		w.decl(r.Parent.ID[:], kV2)
+		w.v2RevParents = append(w.v2RevParents, scParent{append([]byte(nil), r.Parent.ID[:]...), r.Parent.StateElement.LeafIndex})
 		w.fc2(cs, r.Revision)
 		contractKeys(r.Parent.V2FileContract)
 		contractKeys(r.Revision)
@@ -485,6 +500,7 @@ func txn2Toks(w *tw, vc *vcollector, cs consensus.State, txn types.V2Transaction
 		w.pres(r.Parent.StateElement, ok(r.Parent.StateElement))
 		w.fce2(cs, r.Parent)
 		w.decl(r.Parent.ID[:], kV2)
+		w.v2ResParents = append(w.v2ResParents, scParent{append([]byte(nil), r.Parent.ID[:]...), r.Parent.StateElement.LeafIndex})
 		contractKeys(r.Parent.V2FileContract)
 		switch res := r.Resolution.(type) {
 		case *types.V2FileContractRenewal:
@@ -501,6 +517,7 @@ func txn2Toks(w *tw, vc *vcollector, cs consensus.State, txn types.V2Transaction
 			nid := r.Parent.ID.V2RenewalID()
 			w.b(nid[:])
 			w.decl(nid[:], kV2)
+			w.v2Created = append(w.v2Created, append([]byte(nil), nid[:]...))
 			contractKeys(res.NewContract)
 			vc.pair(rh, res.RenterSignature[:])
 			vc.pair(rh, res.HostSignature[:])
@@ -565,7 +582,7 @@ func medianSeconds(cs consensus.State) int64 {
 }
 
 // blockToks renders one block with its supplement; nextMedian is the median timestamp of the state after it
-func blockToks(cs consensus.State, b types.Block, bs consensus.V1BlockSupplement, headerCode int, nextMedian int64, ok func(types.StateElement) bool) ([]string, bool, bool) {
+func blockToks(cs consensus.State, b types.Block, bs consensus.V1BlockSupplement, headerCode int, nextMedian int64, ok func(types.StateElement) bool) ([]string, bool, [3]bool) {
 	w := &tw{}
 	vc := newVC()
 	bid := b.ID()
@@ -626,7 +643,7 @@ func blockToks(cs consensus.State, b types.Block, bs consensus.V1BlockSupplement
 		w.z(uint64(nextMedian))
 	}
 	vc.toks(w)
-	return w.t, !w.mixed, w.freshSC()
+	return w.t, !w.mixed, w.fresh()
 }
 
 func netLToks(n *consensus.Network) []string {
